@@ -190,7 +190,7 @@ def load_findings():
     if os.path.exists(FINDINGS):
         for l in open(FINDINGS):
             l = l.strip()
-            if l and not l.startswith("#"):
+            if l.startswith("{"):
                 out.append(json.loads(l))
     return out
 
@@ -211,6 +211,7 @@ class Reporter:
         """Print the protocol lines; returns (exit code, violation count, known count)."""
         viol = 0
         known = 0
+        shutil.rmtree(os.path.join(REPLAYS, self.pid), ignore_errors=True)
         for key, e in sorted(self.by_key.items()):
             if key in self.known:
                 known += 1
